@@ -23,8 +23,8 @@ ASSUMPTIONS = [
     "and the integer model; not provable in Lean's kernel)",
     "supplied value -> override type follows WebGPU createPipeline rules: integral and in range for i32/u32, non-zero -> true "
     "for bool (NaN -> false), otherwise a pipeline-creation error",
-    "glsl/msl PipelineConstants options and @workgroup_size / array sizes derived from overrides are not yet exercised; only "
-    "ir.ProcessOverrides + the IR interpreter",
+    "@workgroup_size derived from overrides is decided by C17's interface probe, not here; array sizes derived from overrides: one "
+    "workgroup array per 24 modules (class ovarr), through ir.ProcessOverrides and the msl / glsl PipelineConstants routes",
     "Go harness: override/value-map generator, reference-module builder, IR dumper",
 ]
 N = {"quick": 1200, "thorough": 60000}
@@ -44,6 +44,8 @@ def route_shapes(src, values):
         if values.strip() == "" and re.search(r"[-+*/(!~]", init):
             # no value supplied at all: msl.Compile skips override resolution (len(PipelineConstants) == 0)
             shapes.add("empty-map-nonliteral-default")
+    if re.search(r"var<workgroup> \w+: array<\w+, ov\w+>", src):
+        shapes.add("override-sized-workgroup-array")
     return shapes
 
 
@@ -135,6 +137,8 @@ def run(ck):
                     continue
                 if mt.get("needs_f32lit") and not f32lit:
                     continue
+                if mt.get("src_regex") and not re.search(mt["src_regex"], unq(s)):
+                    continue      # decided on the case: the source text has the shape the finding names
                 if re.fullmatch(mt.get("kind", "$^").strip("^$") if mt.get("kind", "").startswith("^") else re.escape(mt.get("kind", "")), kind) \
                         and re.search(mt.get("knob_regex", ".*"), knob) and re.search(mt.get("class_regex", ".*"), cls):
                     fid = fid or k["id"]
